@@ -120,6 +120,7 @@ var c09Templates = []string{
 	"@dump(a, b)", "{{ [a, b] }}", "{{ {x: a, y: b} }}", "{{ {a, b}.a }}",
 	"{{ [a][0] }}", "{{ [a][b] }}", "{{ a.at(b) }}", "{{ a.slice(b) }}", "{{ a.then(b) }}",
 	"{{ \"s\" + a }}", "{{ a + 1 }}", "{{ 1.5 + a }}", "{{ nil == a }}",
+	"@component(\"x\")", "@component(\"x\", {k: a})", "@component(\"~x\")@slot y{{ a }}@end@end", "@use(\"~l\")x", "@insert(\"r\", a)", "@reserve(\"r\")",
 }
 
 // renderChecked runs the real pipeline and returns output or the structured error.
